@@ -3,6 +3,7 @@ import Driver.Affine
 import Driver.PathOps
 import Driver.EngineOps
 import Driver.ShapeOps
+import Driver.ReuseOps
 open PicoSVG Drv
 
 def handleF64 (fields : List String) : Option String :=
@@ -15,7 +16,7 @@ def handleF64 (fields : List String) : Option String :=
   | ["f64.round", h, n] => n.toInt?.map (fun k => fHex (F64.pyRound (ofHex h) k))
   | _ => none
 
-def handlers : List (List String → Option String) := [handleF64, handleAffine, handlePath, handleEngine, handleShape]
+def handlers : List (List String → Option String) := [handleF64, handleAffine, handlePath, handleEngine, handleShape, handleReuse]
 
 def handle (fields : List String) : String :=
   match handlers.findSome? (fun h => h fields) with
